@@ -23,7 +23,8 @@ from . import common as C
 from . import progs
 
 THEOREMS = ["select_lfp", "select_sound", "select_complete", "live_is_least_closed", "select_order_independent", "select_perm",
-            "select_monotone_alive", "select_closed", "select_closed_two", "select_exact", "select_roots", "select_subset"]
+            "select_monotone_alive", "select_closed", "select_closed_two", "select_exact", "select_roots", "select_subset",
+            "select_all_alive", "select_subset_all_alive", "select_renaming"]
 
 NATIVE_FRACTION = 0.4    # share of generated programs that are also built and run natively (about 1 s CPU each)
 ORDERS = ["fwd", "rev", "weave", "rot=7", "rot=61"]
@@ -451,13 +452,97 @@ def f_func_tables(g):
         g.main.append("println(\"%s named\", %snamed[\"z\"].f(1), %snamed[\"z\"].name)" % (P, P, P))
 
 
+def f_signatures(g):
+    """unexported methods whose filter names contain composite parameter/result types, reached only through an
+    interface that spells the same signature with other parameter names (the name match is purely textual)"""
+    rng, P = g.rng, g.p()
+    T = "%sT" % P
+    pool = [
+        ("va", "(xs ...int)", "(ys ...int)", "int", "return len(xs) + t.n",
+         "println(\"%s va\", %sv.va(1, 2, 3), %sv.va())" % (P, P, P)),
+        ("fn", "(f func(int, string) (bool, error))", "(g func(int, string) (bool, error))", "(int, error)",
+         "ok, err := f(t.n, \"a\")\n\tif ok {\n\t\treturn 1, err\n\t}\n\treturn 0, err",
+         "%sa, %se := %sv.fn(func(i int, s string) (bool, error) { return i > 0, nil })\n\tprintln(\"%s fn\", %sa, %se == nil)" % (P, P, P, P, P, P)),
+        ("ch", "(c <-chan int, d chan<- string)", "(in <-chan int, out chan<- string)", "int", "d <- \"x\"\n\treturn <-c + t.n",
+         "%sc, %sd := make(chan int, 1), make(chan string, 1)\n\t%sc <- 5\n\tprintln(\"%s ch\", %sv.ch(%sc, %sd), <-%sd)" % (P, P, P, P, P, P, P, P)),
+        ("agg", "(a [3]int, s []string, mp map[string][]int)", "(x [3]int, y []string, z map[string][]int)", "*%s" % T,
+         "return &%s{a[1] + len(s) + len(mp[\"k\"]) + t.n}" % T,
+         "println(\"%s agg\", %sv.agg([3]int{1, 2, 3}, []string{\"q\"}, map[string][]int{\"k\": {1, 2}}).n)" % (P, P)),
+        ("st", "(s struct {\n\ta int\n\tb string\n})", "(q struct {\n\ta int\n\tb string\n})", "interface{ x() int }",
+         "return %sX{s.a + len(s.b) + t.n}" % P,
+         "println(\"%s st\", %sv.st(struct {\n\t\ta int\n\t\tb string\n\t}{2, \"zz\"}).x())" % (P, P)),
+        ("ifc", "(i interface{}, e error)", "(v interface{}, err error)", "(r interface{}, ok bool)", "return i, e == nil",
+         "%sr, %sok := %sv.ifc(7, nil)\n\tprintln(\"%s ifc\", %sr.(int), %sok)" % (P, P, P, P, P, P)),
+        ("mp", "(m map[[2]int]func() int)", "(table map[[2]int]func() int)", "int", "return m[[2]int{1, 2}]() + t.n",
+         "println(\"%s mp\", %sv.mp(map[[2]int]func() int{{1, 2}: func() int { return 40 }}))" % (P, P)),
+        ("pp", "(p *%s, q **%s)" % (T, T), "(a *%s, b **%s)" % (T, T), "int", "return p.n + (*q).n + t.n",
+         "%sp := &%s{1}\n\tprintln(\"%s pp\", %sv.pp(%sp, &%sp))" % (P, T, P, P, P, P)),
+    ]
+    chosen = rng.sample(pool, rng.randrange(2, len(pool) + 1))
+    g.decls.append("type %s struct{ n int }\n" % T)
+    g.decls.append("type %sX struct{ n int }\n" % P)
+    g.decls.append("func (x %sX) x() int { return x.n }\n" % P)
+    for name, params, iparams, res, body, call in pool:
+        g.decls.append("func (t %s) %s%s %s {\n\t%s\n}\n" % (T, name, params, res, body))
+    g.decls.append("type %sI interface {\n%s\n}\n" % (P, "\n".join("\t%s%s %s" % (c[0], c[2], c[3]) for c in chosen)))
+    g.main.append("var %sv %sI = %s{10}" % (P, P, T))
+    for c in chosen:
+        g.main.append(c[5])
+    if rng.random() < 0.7:
+        # generic receiver: the interface spells the instantiated signature
+        args = [("[]int", "[]int{1}"), ("map[string]int", "map[string]int{\"a\": 1}"), ("func(int) int", "func(x int) int { return x }"),
+                ("*%s" % T, "&%s{3}" % T), ("struct{ a int }", "struct{ a int }{4}"), ("[2]string", "[2]string{\"a\", \"b\"}"),
+                ("chan int", "make(chan int)"), ("%sG[int]" % P, "%sG[int]{5}" % P), ("%sX" % P, "%sX{6}" % P)]
+        g.decls.append("type %sG[T any] struct{ v T }\n" % P)
+        g.decls.append("func (g %sG[T]) put(v T, more ...T) int { return 1 + len(more) }\n" % P)
+        g.decls.append("func (g %sG[T]) conv(f func(T) T) map[string]T { return map[string]T{\"k\": f(g.v)} }\n" % P)
+        g.decls.append("func (g %sG[T]) spare(v T) T { return v }\n" % P)
+        for idx, (ty, val) in enumerate(rng.sample(args, rng.randrange(1, 4))):
+            g.decls.append("type %sGI%d interface {\n\tput(a %s, b ...%s) int\n\tconv(h func(%s) %s) map[string]%s\n}\n" % (P, idx, ty, ty, ty, ty, ty))
+            g.main.append("var %sg%d %sGI%d = %sG[%s]{%s}" % (P, idx, P, idx, P, ty, val))
+            g.main.append("println(\"%s gen%d\", %sg%d.put(%s, %s), len(%sg%d.conv(func(x %s) %s { return x })))" % (
+                P, idx, P, idx, val, val, P, idx, ty, ty))
+
+
+def f_generic_signature(g):
+    """unexported methods whose signature mentions type parameters: the dependency name must be spelled with the
+    type ARGUMENTS of the instance that makes the call (constraint interfaces, wrappers, swapped parameters)"""
+    rng, P = g.rng, g.p()
+    g.decls.append("type %sGet[T any] interface{ fetch(k T) T }\n" % P)
+    g.decls.append("func %suse[T any, B %sGet[T]](b B, k T) T { return b.fetch(k) }\n" % (P, P))
+    g.decls.append("type %sStore struct{ pre string }\n" % P)
+    g.decls.append("func (s %sStore) fetch(k string) string { return s.pre + k }\n" % P)
+    g.decls.append("type %sIStore struct{ n int }\n" % P)
+    g.decls.append("func (s *%sIStore) fetch(k int) int { return s.n + k }\n" % P)
+    g.decls.append("type %sFStore struct{}\n" % P)
+    g.decls.append("func (s %sFStore) fetch(k float64) float64 { return k }\n" % P)     # never used
+    g.decls.append("type %sWrap[T any] struct{ inner %sGet[T] }\n" % (P, P))
+    g.decls.append("func (w %sWrap[T]) get(k T) T { return w.inner.fetch(k) }\n" % P)
+    g.decls.append("type %sPair[K comparable, V comparable] struct {\n\tk K\n\tv V\n}\n" % P)
+    g.decls.append("type %sTrip[A comparable, B any] struct {\n\tk A\n\tv B\n}\n" % P)
+    g.decls.append("type %sK2[K comparable] struct{ k K }\n" % P)
+    g.decls.append("func (p %sPair[K, V]) flip() %sTrip[V, %sK2[K]] { return %sTrip[V, %sK2[K]]{p.v, %sK2[K]{p.k}} }\n" % (P, P, P, P, P, P))
+    g.decls.append("func (p %sPair[K, V]) same() %sPair[K, V] { return p }\n" % (P, P))
+    g.decls.append("type %sflipper interface{ flip() %sTrip[string, %sK2[int]] }\n" % (P, P, P))
+    opts = [
+        "println(\"%s use\", %suse[string, %sStore](%sStore{\"x\"}, \"a\"))" % (P, P, P, P),
+        "println(\"%s usep\", %suse[int, *%sIStore](&%sIStore{4}, 3))" % (P, P, P, P),
+        "println(\"%s wrap\", %sWrap[string]{%sStore{\"w\"}}.get(\"z\"))" % (P, P, P),
+        "var %sf %sflipper = %sPair[int, string]{1, \"s\"}\n\tprintln(\"%s flip\", %sf.flip().k, %sf.flip().v.k)" % (P, P, P, P, P, P),
+        "println(\"%s infer\", %suse(%sStore{\"i\"}, \"n\"))" % (P, P, P),
+    ]
+    for o in rng.sample(opts, rng.randrange(2, len(opts) + 1)):
+        g.main.append(o)
+
+
 FEATURES = [
     ("iface-exported", f_iface_exported), ("iface-unexported", f_iface_unexported), ("anon-iface-assert", f_anon_iface),
     ("method-value-expr", f_method_value), ("embedding", f_embedding), ("generic-func", f_generic_func),
     ("generic-type", f_generic_type), ("generic-constraint-method", f_generic_constraint), ("nested-type", f_nested_type),
     ("side-effect-var", f_side_effect_vars), ("linkname", f_linkname), ("cross-package", f_crosspkg),
     ("named-nonstruct", f_named_nonstruct), ("struct-fields", f_struct_fields), ("init-registry", f_init_registry),
-    ("error-panic", f_error_panic), ("defer-go", f_defer_go), ("func-table", f_func_tables),
+    ("error-panic", f_error_panic), ("defer-go", f_defer_go), ("func-table", f_func_tables), ("signature-spellings", f_signatures),
+    ("generic-signature", f_generic_signature),
 ]
 
 
@@ -679,12 +764,13 @@ def run_batch(chk, jobs, meta, tier):
 def run(tier, seed):
     chk = C.Check("C05", tier, seed)
     nprog = 100 if tier == "quick" else 1200
-    chk.rule = ("programs = random compositions (2-6 features each, seeded) of 18 feature generators that reach code only "
+    chk.rule = ("programs = random compositions (2-6 features each, seeded) of 20 feature generators that reach code only "
                 "through interfaces (exported/unexported/same-named methods), anonymous interfaces and assertions, method "
                 "values/expressions, embedding, generic functions/types/constraint methods, types nested in functions and "
                 "methods, side-effecting package variable initialisers, go:linkname (function and method forms), a second "
                 "package, named non-struct types, struct field types, init() registries, error/panic values, defer/go "
-                "method calls and function tables; each feature also declares unreachable code. %d generated programs + %d "
+                "method calls, function tables and unexported methods with composite signature spellings (also on generic "
+                "receivers); each feature also declares unreachable code. %d generated programs + %d "
                 "corpus programs; every program is built once and its archives (all packages incl. runtime) feed all four ties; "
                 "a program is non-trivial when DCE eliminates at least one declaration of the user packages"
                 % (nprog, len(CORPUS)))
@@ -695,8 +781,8 @@ def run(tier, seed):
                    "Node 20 and the native Go toolchain as execution oracles"]
     chk.assumptions = ["completeness of dependency RECORDING in the translator (DeclareDCEDep call sites) and of the filter "
                        "naming (filters.go) is NOT proved: it is what the behaviour tie and the artefact closure scan test",
-                       "names are interned before they reach the Lean driver: the selector only compares names for equality "
-                       "and with the empty string",
+                       "names are interned before they reach the Lean driver (justified at model level by theorem select_renaming: "
+                       "the selection commutes with every injective renaming that keeps the empty name)",
                        "the hook repeats the inclusion loop of WriteProgramCode (compiler.go:141-156); the emission tie checks "
                        "that the real linker output equals WritePkgCode over the hook's selection"]
     chk.proof = C.check_proofs("C05", THEOREMS, tier)
@@ -709,7 +795,7 @@ def run(tier, seed):
     for i in range(nprog):
         mod = "gvp%dx%d" % (seed, i)
         files, feats = gen_program(chk.rng, mod, force=FEATURES[i % len(FEATURES)][0] if i < 3 * len(FEATURES) else None)
-        jobs.append({"id": "g%d-%d" % (seed, i), "mod": mod, "files": files, "native": chk.rng.random() < NATIVE_FRACTION})
+        jobs.append({"id": "g%d-%d" % (seed, i), "mod": mod, "files": files, "native": chk.rng.random() < NATIVE_FRACTION, "timeout": 60})
         meta.append((files, feats))
     failures = 0
     step = 30 if tier == "quick" else 120
@@ -740,7 +826,7 @@ def run(tier, seed):
         for i in range(extra_n):
             mod = "gvs%dx%d" % (seed, i)
             files, feats = gen_program(chk.rng, mod, force=hot[i % len(hot)])
-            jobs2.append({"id": "s%d-%d" % (seed, i), "mod": mod, "files": files, "native": chk.rng.random() < NATIVE_FRACTION})
+            jobs2.append({"id": "s%d-%d" % (seed, i), "mod": mod, "files": files, "native": chk.rng.random() < NATIVE_FRACTION, "timeout": 60})
             meta2.append((files, feats))
         t1 = time.time()
         ran = 0
